@@ -14,6 +14,7 @@ vs the Lean model (`Model/PowerManager.lean`), exact.
 from __future__ import annotations
 
 import asyncio
+import dataclasses
 import json
 import pathlib
 from fractions import Fraction
@@ -22,7 +23,8 @@ from unittest import mock
 from . import matryoshka_gen as g
 from .common import Ctx, python_flags, rat
 
-RULE = ("histories of 4-30 events (regular/op proposals from several actors and priorities, in-domain bounds updates that "
+RULE = ("histories of 4-30 events (regular/op proposals from several actors and priorities, in-domain bounds updates — stamped with "
+        "increasing, equal and OLDER timestamps than the previous update; every update replaces the bounds — that "
         "widen/shrink/shift, Success/PartialFailure/Error results, clock advances across the 1 s drop timer incl. >60 s "
         "expiry); non-trivial = contains both a regular and an op proposal and a bounds update after them; distinct by hash")
 
@@ -33,8 +35,15 @@ def gen_history(rng) -> dict:
     n = rng.randint(4, 30)
     now = Fraction(0)
     events: list[dict] = []
+    ts = [rng.randint(0, 50)]
+
+    def bounds_event() -> dict:
+        # the timestamp the bounds carry (seconds): mostly increasing, sometimes equal, sometimes OLDER than the previous
+        # update (the pool stamps bounds with the newest data timestamp among the working batteries, which can go back)
+        ts[0] += rng.choice([1, 1, 1, 2, 7, 0, 0, -1, -1, -4, -30])
+        return {"ev": "bounds", "sb": _gen_sb(rng, anchors), "ts": ts[0]}
     if rng.random() < 0.85:
-        events.append({"ev": "bounds", "sb": _gen_sb(rng, anchors)})
+        events.append(bounds_event())
     for _ in range(n):
         r = rng.random()
         if r < 0.5:
@@ -42,7 +51,7 @@ def gen_history(rng) -> dict:
             p["src"] = rng.choice(["a", "b", "c"])
             events.append({"ev": "proposal", "p": p, "op": rng.random() < 0.45})
         elif r < 0.72:
-            events.append({"ev": "bounds", "sb": _gen_sb(rng, anchors)})
+            events.append(bounds_event())
         elif r < 0.87:
             # `which`: the result answers the k-th latest request (stale results for superseded requests happen)
             events.append({"ev": "result", "kind": rng.choice(["success", "partial", "partial", "error"]),
@@ -75,7 +84,7 @@ async def _drive(case: dict) -> list[dict]:
     from frequenz.sdk.microgrid._power_managing._base_classes import ReportRequest, _Report
     from frequenz.sdk.microgrid._power_managing._power_managing_actor import PowerManagingActor
     from frequenz.sdk.timeseries._base_types import SystemBounds
-    from datetime import datetime, timezone
+    from datetime import datetime, timedelta, timezone
 
     cids = g._CIDS
     proposals = Broadcast(name="proposals")
@@ -114,6 +123,8 @@ async def _drive(case: dict) -> list[dict]:
                 await _settle()
         psend, bsend, rsend = proposals.new_sender(), bounds_ch.new_sender(), results.new_sender()
         all_requests: list = []
+        n_bounds = 0
+        t0 = datetime(2024, 1, 1, tzinfo=timezone.utc)
         loop = asyncio.get_running_loop()
         for ev in case["events"]:
             kind = ev["ev"]
@@ -121,7 +132,9 @@ async def _drive(case: dict) -> list[dict]:
                 p = dict(ev["p"])
                 await psend.send(g.mk_proposal(p, set_op_point=ev["op"]))
             elif kind == "bounds":
-                await bsend.send(g.mk_sb(ev["sb"]))
+                n_bounds += 1
+                stamp = t0 + timedelta(seconds=ev.get("ts", n_bounds))  # corpus cases without "ts": increasing
+                await bsend.send(dataclasses.replace(g.mk_sb(ev["sb"]), timestamp=stamp))
             elif kind == "result":
                 k = min(ev.get("which", 0), len(all_requests) - 1)
                 req = (all_requests[-1 - k] if all_requests
@@ -234,6 +247,11 @@ def check_case(ctx: Ctx, case: dict) -> dict:
         tags.add("both-groups")
     if after:
         tags.add("bounds-update-after-both")
+    stamps = [ev.get("ts") for ev in case["events"] if ev["ev"] == "bounds" and "ts" in ev]
+    if any(b < a for a, b in zip(stamps, stamps[1:])):
+        tags.add("bounds-older-timestamp")
+    if any(b == a for a, b in zip(stamps, stamps[1:])):
+        tags.add("bounds-equal-timestamp")
     if any(e["ev"] == "drop" and Fraction(e["now"]) > 60 for e in case["events"]):
         tags.add("expiry")
     if any(e["ev"] == "result" and e["kind"] == "partial" for e in case["events"]):
